@@ -1,6 +1,6 @@
 SPECIFICATION Spec
 CONSTANTS
-  Inputs = {"unformatted", "formatted", "invalid", "empty", "crlf", "nonl", "large"}
+  Inputs = {"unformatted", "formatted", "invalid", "empty", "crlf", "nonl", "large", "longtail"}
   Modes = {"write", "check", "check_unified", "check_json", "check_summary"}
   PathCases = {"none", "plain", "ign1", "ign2", "ign3", "ignfile", "ign_norespect", "cfgdir", "ecdir"}
   Extras = {"none", "verify", "threads1", "range_end"}
